@@ -294,7 +294,7 @@ def is_explicit_refusal(cls, e):
 # the laws
 # ------------------------------------------------------------------------------------------------
 
-def evaluate(key, cls, b, offsets=OFFSETS_QUICK, want_record=False):
+def evaluate(key, cls, b, offsets=OFFSETS_QUICK, want_record=False, prev_b=None, extra=True):
     """Returns dict(parse=..., viol=[(law, detail, text)], rec=...)."""
     res = {'parse': None, 'viol': [], 'n': None}
     try:
@@ -343,6 +343,7 @@ def evaluate(key, cls, b, offsets=OFFSETS_QUICK, want_record=False):
             # when pack() itself raises the same way the failure is reported once, under pack-raises
             if not (b1 is None and any(l == 'pack-raises' and d == exc_name(e) for l, d, _ in V)):
                 V.append(('calcsize-raises', exc_name(e), 'calcsize() of a parsed object raises %s: %s' % (exc_name(e), str(e)[:160])))
+    b1_obj = b1
     if b1 is not None:
         if not isinstance(b1, (bytes, bytearray)):
             V.append(('pack-returns-non-bytes', type(b1).__name__, 'pack() returned %r' % (b1,)))
@@ -488,6 +489,113 @@ def evaluate(key, cls, b, offsets=OFFSETS_QUICK, want_record=False):
                     V.append(('pack-into-payload-outside', '', 'pack(buffer, %d, payload=p) modified the caller buffer outside [%d, %d)' % (off, off, off + len(ref))))
             except Exception as e:
                 V.append(('pack-with-payload-raises', exc_name(e), 'pack(..., payload=p) at offset %d raises %s: %s' % (off, exc_name(e), str(e)[:120])))
+    # -- further access paths / argument forms / histories (AGENT_GUIDE checklist) -----------------------------------
+    if extra:
+        body = b if greedy else b[:n]
+        # (1,3) every buffer form the API accepts, at two offsets; the caller's buffer is not modified by unpack and may be
+        #       overwritten afterwards without the object noticing
+        for fname, mk in (('bytearray', lambda x: bytearray(x)), ('memoryview(bytes)', lambda x: memoryview(bytes(x))),
+                          ('memoryview(bytearray)', lambda x: memoryview(bytearray(x))), ('numpy.uint8', lambda x: np.frombuffer(bytearray(x), dtype=np.uint8))):
+            for off in (0, 3):
+                raw = bytes((FILL ^ (i * 29)) & 0xFF for i in range(off)) + body + (b'' if greedy else b'\x5a\x00\xff')
+                try:
+                    buf = mk(raw)
+                    of, nf = do_unpack(cls, buf, off)
+                except Exception as e:
+                    if fname == 'bytearray':
+                        V.append(('unpack-buffer-form-raises', fname, 'unpack from a %s at offset %d raises %s: %s' % (fname, off, exc_name(e), str(e)[:100])))
+                    else:
+                        res.setdefault('forms_refused', {})[fname] = exc_name(e)
+                    continue
+                vf = fields(of)
+                d = first_diff(v, vf)
+                if d or int(nf) != len(body if greedy else b[:n]):
+                    V.append(('unpack-buffer-form-differs', fname, 'unpack from a %s at offset %d: %s' % (fname, off, ('field %s differs' % d) if d else ('consumed %s' % nf))))
+                if bytes(buf) != raw:
+                    V.append(('unpack-modifies-buffer', fname, 'unpack modified the caller\'s %s' % fname))
+                if fname != 'memoryview(bytes)':
+                    try:
+                        tgt = buf.obj if isinstance(buf, memoryview) else buf
+                        if isinstance(tgt, np.ndarray):
+                            tgt[:] = 0xEE
+                        else:
+                            tgt[:] = bytes(len(tgt))
+                        d2 = first_diff(vf, fields(of))
+                        if d2:
+                            V.append(('unpack-retains-buffer', d2.split('[')[0].lstrip('.'), 'field %s of an object parsed from a %s changes when the caller clears that buffer' % (d2, fname)))
+                    except (TypeError, ValueError):
+                        pass
+        # (2,8) the same object used again: after parsing something else - or after a refused parse - it must be what a fresh object would be
+        if prev_b is not None:
+            try:
+                ou = cls()
+                try:
+                    ou.unpack(prev_b, 0)
+                except Exception:
+                    pass
+                nu = ou.unpack(b, 0)
+                d = first_diff(v, fields(ou))
+                if d or int(nu) != n:
+                    V.append(('unpack-on-used-object-differs', (d or 'consumed').split('[')[0].lstrip('.'), 'an object that had parsed another input before gives %s after parsing this one'
+                              % (('%s = %s instead of %s' % (d, _at(fields(ou), d), _at(v, d))) if d else ('%s bytes consumed' % nu))))
+                else:
+                    try:
+                        pu = do_pack(ou)
+                        if b1 is not None and bytes(pu) != b1:
+                            V.append(('unpack-on-used-object-differs', 'pack', 'an object that had parsed another input before serialises differently after parsing this one'))
+                    except Exception as e:
+                        if b1 is not None:
+                            V.append(('unpack-on-used-object-differs', 'pack-raises:' + exc_name(e), 'an object that had parsed another input before cannot be serialised after parsing this one: %s: %s' % (exc_name(e), str(e)[:100])))
+            except Exception as e:
+                V.append(('unpack-on-used-object-differs', 'raises:' + exc_name(e), 'unpack on an object used before raises %s' % exc_name(e)))
+        # (5) explicit current message version == default; (6) options that must not matter
+        try:
+            import inspect
+            params = inspect.signature(cls.unpack).parameters
+        except Exception:
+            params = {}
+        if 'message_version' in params and hasattr(cls, 'MESSAGE_VERSION'):
+            try:
+                ov = cls(); nv = ov.unpack(b, 0, message_version=int(cls.MESSAGE_VERSION))
+                d = first_diff(v, fields(ov))
+                if d or int(nv) != n:
+                    V.append(('unpack-explicit-version-differs', (d or 'consumed').split('[')[0].lstrip('.'), 'unpack(message_version=MESSAGE_VERSION) differs from the default in %s' % (d or 'bytes consumed')))
+            except Exception as e:
+                V.append(('unpack-explicit-version-differs', 'raises:' + exc_name(e), 'unpack(message_version=MESSAGE_VERSION) raises %s' % exc_name(e)))
+        for opt, val in (('warn_on_unrecognized', False), ('return_sync_bytes', True)):
+            if opt in params:
+                try:
+                    oo = cls(); ro = oo.unpack(b, 0, **{opt: val})
+                    no = ro[0] if isinstance(ro, tuple) else ro
+                    d = first_diff(v, fields(oo))
+                    if d or int(no) != n:
+                        V.append(('unpack-option-matters', opt, 'unpack(%s=%r) differs from the default in %s' % (opt, val, d or 'bytes consumed')))
+                except Exception as e:
+                    V.append(('unpack-option-matters', opt, 'unpack(%s=%r) raises %s' % (opt, val, exc_name(e))))
+        # (7) numpy error state set to "raise" must not change anything
+        try:
+            with np.errstate(all='raise'):
+                oe, ne = do_unpack(cls, b, 0)
+                de = first_diff(v, fields(oe))
+                pe = None if b1 is None else bytes(do_pack(oe))
+            if de or int(ne) != n or (b1 is not None and pe != b1):
+                V.append(('numpy-errstate-matters', '', 'under np.errstate(all="raise") unpack/pack give a different result'))
+        except Exception as e:
+            V.append(('numpy-errstate-matters', exc_name(e), 'under np.errstate(all="raise") unpack/pack raise %s: %s' % (exc_name(e), str(e)[:100])))
+        # (1) the buffer pack() handed out earlier is still what it was, and a second pack() does not hand out the same mutable object
+        if b1 is not None:
+            try:
+                if bytes(b1_obj) != b1:
+                    V.append(('returned-buffer-changed-later', '', 'the buffer returned by pack() changed during later pack calls'))
+                b3 = do_pack(o)
+                if isinstance(b3, bytearray) and b3 is b1_obj:
+                    V.append(('returned-buffer-aliased', '', 'two pack() calls returned the same mutable bytearray'))
+                elif isinstance(b3, bytearray) and isinstance(b1_obj, bytearray):
+                    b3[:] = bytes(len(b3))
+                    if bytes(b1_obj) != b1:
+                        V.append(('returned-buffer-aliased', '', 'clearing the buffer returned by a second pack() changed the first one'))
+            except Exception:
+                pass
     # classify a first-step size mismatch: the input was not in canonical form (over-long declared length,
     # NUL-padded string ...) but its serialisation is shorter and is a fixed point of unpack/pack
     if b1 is not None and len(b1) < n and not any(l in ('reparse-raises', 'repack-raises', 'repack-bytes-differ', 'reparse-consumed-differs') for l, _, _ in V):
@@ -740,6 +848,11 @@ def field_values(it, rng, thorough):
     vals = [0, 1, 2, 3, 0x7F, top - 1, top, full - 1, full, rng.randrange(1 << bits)]
     if w == 1:
         vals += list(range(4, 14)) + [0xFE]
+    if it.get('from_enum'):
+        # a lenient enum field: a member, then values the enum does not know (they must survive parse -> pack -> parse)
+        ms = [m % (1 << bits) for m in it['from_enum']]
+        unknown = [u for u in (full, top, 0x7F, max(ms) + 1) if u not in ms and u <= full]
+        vals = ms[:1] + unknown[:2] + ms[1:3] + [x for x in vals if x not in ms[:3] and x not in unknown[:2]]
     return vals
 
 
@@ -851,7 +964,7 @@ def gen_inputs_desc(cls, desc, rng, tier, budget, greedy):
                     fo, ff = fld[it['skip'][0]]
                     bb[fo] = flags
                 return bytes(bb) + data
-            per = 5 if thorough else 2
+            per = 6 if thorough else 3
             for tv, case in it['cases'].items():
                 for k, body in enumerate(rec_variants(case['items'], per)):
                     out.append(msg(tv, body))
@@ -877,6 +990,16 @@ def gen_inputs_desc(cls, desc, rng, tier, budget, greedy):
                             if it['skip']:
                                 out.append(msg(it['sub']['tag_value'], bytes(hdr), 0, it['skip'][1]))
                 out.append(msg(it['sub']['tag_value'], bytes(hz - 1)))
+            # error / none shapes: a response without data, the interface header alone, the header with an unknown sub-type
+            if 'response' in fld:
+                ro, rf = fld['response']
+                for tv in list(it['cases'])[:4] + ([str(it['sub']['tag_value'])] if it['sub'] else []):
+                    for rv in (1, 8, 255):
+                        mm = bytearray(msg(tv, b'')); mm[ro] = rv; out.append(bytes(mm))
+            if it['sub']:
+                hz_ = rec_size(it['sub']['hdr'])
+                out.append(msg(it['sub']['tag_value'], bytes(hz_)))
+                out.append(msg(it['sub']['tag_value'], b''))
             unk = (1 << (8 * KS[tf['kind']])) - 2
             out.append(msg(unk, b''))
             out.append(msg(unk, b'abc'))
@@ -908,12 +1031,32 @@ def gen_inputs_desc(cls, desc, rng, tier, budget, greedy):
                 datas[i] = dta
                 if m[0] == 'rewrite':
                     to, tf = fld[m[1]]
-                    for tv in list(m[2]) + [0, 255]:
+                    for tv in sorted(set(list(m[2]) + list(range(0, 7)) + [255])):
                         out.append(with_parts(datas, [(to, KS[tf['kind']], tv)]))
                 else:
                     out.append(with_parts(datas))
             if len(cparts) > 1:
                 out.append(with_parts([b'x' * (j + 1) for j in range(len(cparts))]))
+            # size classes: 0, 1, 255, 256, 65535, 65536, 70000 bytes as far as the count field can express them
+            co_, cf_ = fld[x['len'][1]]
+            cap = (1 << (8 * KS[cf_['kind']])) - 1
+            for ln in (0, 1, 255, 256, 65535, 65536, 70000):
+                if ln <= cap and (m[0] != 'str' or ln <= 300):
+                    datas = [b''] * len(cparts)
+                    datas[i] = (b'Az' * (ln // 2 + 1))[:ln] if m[0] == 'str' else bytes((j * 13 + 1) & 0xFF for j in range(ln))
+                    out.append(with_parts(datas))
+    # counted records: 0, 1, the largest count a one-byte field can hold, more than 255, and (thorough) the 16-bit maximum
+    for it in items:
+        if it['t'] == 'counted':
+            co, cf = fld[it['cnt']]
+            esz = rec_size(it['body'])
+            cap = (1 << (8 * KS[cf['kind']])) - 1
+            for cnt in (0, 1, 255, 256, 300) + ((65535,) if thorough else ()):
+                if cnt <= cap:
+                    bb = bytearray(base); bb[co:co + KS[cf['kind']]] = cnt.to_bytes(KS[cf['kind']], 'little')
+                    out.append(bytes(bb) + bytes(cnt * esz))
+    if greedy:
+        out.append(bytes(base) + bytes((j * 7) & 0xFF for j in range(70000)))
     for (co, cw, eo, ew, v, esz) in elem:
         k = rng.choice([1, 2, 3])
         bb = bytearray(base)
@@ -982,7 +1125,10 @@ def run_key(key, seed, tier, corpus=()):
             out['seed_fail'] = {'exc': r0['parse'].split(':', 1)[1], 'msg': r0.get('parse_msg', ''), 'hex': seeds[0].hex()}
     for idx, b in enumerate(inputs):
         offs = offsets if (not thorough or idx % 8 == 0) else OFFSETS_QUICK
-        r = evaluate(key, cls, b, offs)
+        prev_b = inputs[(idx * 7 + 3) % len(inputs)] if idx % 3 else (inputs[idx - 1] if idx > 0 else None)
+        r = evaluate(key, cls, b, offs, prev_b=prev_b, extra=(thorough or idx % 2 == 0 or idx < 12))
+        for fn_, ex_ in r.get('forms_refused', {}).items():
+            out.setdefault('forms_refused', {})[fn_] = ex_
         out['evals'] += 1
         if r['parse'] != 'ok':
             out['parse_fail'][r['parse']] = out['parse_fail'].get(r['parse'], 0) + 1
